@@ -106,7 +106,7 @@ pub fn shard_main(prop: &str, registry: &[Entry]) {
     let (mut bounded_groups, mut bounded_schedules, mut capped_groups, mut bounded_samples) = (0u64, 0u64, 0u64, 0usize);
     for (cid, entry) in &reg {
         let case = &corpus[*cid];
-        if case.family == "pure/memo-rare-hit" || case.family == "pure/memo-long" {
+        if case.family == "pure/memo-rare-hit" || case.family == "pure/memo-long" || case.family == "pure/whitespace-runs" {
             // long-history family of the sequential part
             continue;
         }
